@@ -151,14 +151,43 @@ func verifC23RandomRun(res *verifkit.Result, rnd *rand.Rand, run int, allowReset
 					}
 					e.get(r)
 					res.Seen(e.class(r))
-				case x < 88: // invalidate
+				case x < 78: // chase: invalidate what a parked loader has just read, then ask for it again
+					e.mu.Lock()
+					var cand []*verifC23Req
+					for _, r := range e.all {
+						if r.gateHeld.Load() && r.loads.Load() != 0 {
+							select {
+							case <-r.loaded:
+								cand = append(cand, r)
+							default:
+							}
+						}
+					}
+					e.mu.Unlock()
+					if len(cand) == 0 {
+						continue
+					}
+					r := cand[wr.Intn(len(cand))]
+					n := (r.lod.ToSec - r.lod.FromSec) / r.lod.StepSec
+					e.invalidate([]int64{r.lod.FromSec + wr.Int63n(n)*r.lod.StepSec}, r.lod.StepSec)
+					if wr.Intn(2) == 0 {
+						// let the parked loader publish first
+						r.openGate()
+						<-r.done
+						verifC23WaitCond(2*time.Second, func() bool { return r.timing("cache-load-chunks") })
+					}
+					r2 := e.newReq(r.key, 0, false, r.lod.StepSec, r.lod.FromSec, r.lod.ToSec)
+					r2.yields = wr.Intn(3)
+					e.get(r2)
+					res.Seen(e.class(r2))
+				case x < 90: // invalidate
 					nt := 1 + wr.Intn(3)
 					times := make([]int64, 0, nt)
 					for i := 0; i < nt; i++ {
 						times = append(times, g.base+wr.Int63n(total*g.step))
 					}
 					e.invalidate(times, g.step)
-				case x < 96:
+				case x < 97:
 					if cfg.Limits != "none" {
 						v := limits(wr)
 						if wr.Intn(5) == 0 {
